@@ -576,7 +576,7 @@ def reentrant_scenarios():
 
 def check_C13():
     ctx = Ctx("C13"); cov = {}
-    broken = proof_part(ctx, "props/C13.v", ["proofs/X_basic.v", "proofs/X_inv.v", "proofs/X_c13.v", "proofs/X_inst.v", "XMachine.v", "props/C03.v", "proofs/XS_inv.v", "proofs/XS_lock.v", "proofs/XS_inst.v", "XMachineS.v"], cov)
+    broken = proof_part(ctx, "props/C13.v", ["proofs/X_basic.v", "proofs/X_inv.v", "proofs/X_c13.v", "proofs/X_inst.v", "proofs/X_c16.v", "proofs/X_term.v", "XMachine.v", "props/C03.v", "proofs/XS_inv.v", "proofs/XS_lock.v", "proofs/XS_inst.v", "XMachineS.v"], cov)
     n = N(ctx, 1200, 20000)
     from . import solo
     fam = solo.resize_families(ctx.tier, [("Map", None), ("MapOf_int", "default"), ("MapOf_int", "const"), ("MapOf_str", "default")])
@@ -636,7 +636,7 @@ def check_C16():
 
 def check_C04():
     ctx = Ctx("C04"); cov = {}
-    broken = proof_part(ctx, "props/C04.v", ["proofs/X_basic.v", "proofs/X_inv.v", "proofs/X_c13.v", "proofs/X_inst.v", "proofs/X_own.v", "proofs/X_chain.v", "proofs/X_c04.v", "proofs/X_lin.v", "proofs/X_resize.v", "proofs/X_swar.v", "proofs/X_atomic.v", "proofs/X_range.v", "proofs/X_loadhit.v", "proofs/C11_table.v", "proofs/C11_lists.v", "XMachine.v", "XExec.v", "TableModel.v"], cov)
+    broken = proof_part(ctx, "props/C04.v", ["proofs/X_basic.v", "proofs/X_inv.v", "proofs/X_c13.v", "proofs/X_inst.v", "proofs/X_own.v", "proofs/X_chain.v", "proofs/X_c04.v", "proofs/X_lin.v", "proofs/X_resize.v", "proofs/X_swar.v", "proofs/X_atomic.v", "proofs/X_range.v", "proofs/X_loadhit.v", "proofs/X_stale.v", "proofs/X_linpoints.v", "proofs/X_linearizable.v", "Lin.v", "proofs/C11_table.v", "proofs/C11_lists.v", "XMachine.v", "XExec.v", "TableModel.v"], cov)
     n = N(ctx, 1500, 25000)
     from . import solo
     fam = solo.resize_families(ctx.tier, [("MapOf_int", "default"), ("MapOf_int", "const"), ("MapOf_str", "default")])
